@@ -50,6 +50,234 @@ pub struct Case {
     /// true = notify_after, false = notify_at
     pub timers: Vec<bool>,
     pub acts: Vec<Act>,
+    /// a history on a `Core` whose app uses the legacy `Time` capability (run in the same process,
+    /// so that ids are compared across the two APIs)
+    #[serde(default)]
+    pub legacy: Vec<LAct>,
+}
+
+/// actions of the legacy-capability history; every one is a call into the core
+#[derive(Debug, Clone, Copy, PartialEq, Eq, Hash, Serialize, Deserialize)]
+pub enum LAct {
+    /// update starts a timer (true = notify_after, false = notify_at)
+    Start(bool),
+    /// update starts a timer and clears it in the same update (cleared before it was ever requested)
+    StartAndClear(bool),
+    /// the shell answers the timer's request
+    Fire(u8),
+    /// the app clears the timer by id
+    Clear(u8),
+    /// the shell drops the timer's request unanswered
+    DropRequest(u8),
+    /// a second answer to an answered request
+    LateFire(u8),
+}
+
+pub mod legacy {
+    //! the legacy `Time` capability on a `Core` (property clauses that do not depend on the handle-based API)
+    use super::{LAct, ALL_IDS};
+    use crux_core::macros::Effect;
+    use crux_core::render::Render;
+    use crux_core::{Command, Core, Request};
+    use crux_time::{Time, TimeRequest, TimeResponse, TimerId};
+    use std::collections::HashSet;
+    use std::time::Duration;
+    use vkit::panics::catch;
+
+    pub enum Event {
+        Start(bool),
+        StartAndClear(bool),
+        Clear(TimerId),
+        Out(TimeResponse),
+    }
+    #[derive(Effect)]
+    #[allow(dead_code)]
+    pub struct Capabilities {
+        pub time: Time<Event>,
+        pub render: Render<Event>,
+    }
+    #[derive(Default)]
+    pub struct App;
+    #[derive(Default, Clone, serde::Serialize)]
+    pub struct Model {
+        pub ids: Vec<TimerId>,
+        pub outcomes: Vec<(TimerId, &'static str)>,
+    }
+    impl crux_core::App for App {
+        type Event = Event;
+        type Model = Model;
+        type ViewModel = Model;
+        type Capabilities = Capabilities;
+        type Effect = Effect;
+        fn update(&self, ev: Event, m: &mut Model, caps: &Capabilities) -> Command<Effect, Event> {
+            let start = |after: bool| {
+                if after {
+                    caps.time.notify_after(Duration::from_secs(2), Event::Out)
+                } else {
+                    caps.time.notify_at(std::time::SystemTime::UNIX_EPOCH + Duration::from_secs(7), Event::Out)
+                }
+            };
+            match ev {
+                Event::Start(after) => m.ids.push(start(after)),
+                Event::StartAndClear(after) => {
+                    let id = start(after);
+                    m.ids.push(id);
+                    caps.time.clear(id);
+                }
+                Event::Clear(id) => caps.time.clear(id),
+                Event::Out(r) => m.outcomes.push(match r {
+                    TimeResponse::DurationElapsed { id } | TimeResponse::InstantArrived { id } => (id, "Completed"),
+                    TimeResponse::Cleared { id } => (id, "Cleared"),
+                    TimeResponse::Now { .. } => (TimerId(usize::MAX), "Now"),
+                }),
+            }
+            Command::done()
+        }
+        fn view(&self, m: &Model) -> Model {
+            m.clone()
+        }
+    }
+
+    struct T {
+        id: TimerId,
+        req: Option<Request<TimeRequest>>,
+        spent: Option<Request<TimeRequest>>,
+        cleared: bool,
+        want: Option<&'static str>,
+    }
+
+    /// returns (timers started, some timer saw both a clear and a fire)
+    pub fn run(acts: &[LAct]) -> Result<(usize, bool), String> {
+        let core: Core<App> = Core::new();
+        let mut timers: Vec<T> = vec![];
+        let mut both = false;
+        for a in acts {
+            let pick = |k: u8, n: usize| k as usize % n;
+            // what this call must hand to the shell: (is_clear, id or None for "the new timer")
+            let mut want_clear: Option<TimerId> = None;
+            let mut new_timer: Option<bool> = None; // Some(expects a notify request)
+            let effects = match *a {
+                LAct::Start(after) => {
+                    new_timer = Some(true);
+                    catch(|| core.process_event(Event::Start(after))).map_err(|p| format!("starting a legacy timer panicked: {p}"))?
+                }
+                LAct::StartAndClear(after) => {
+                    new_timer = Some(false);
+                    catch(|| core.process_event(Event::StartAndClear(after))).map_err(|p| format!("starting and clearing a legacy timer panicked: {p}"))?
+                }
+                LAct::Clear(k) => {
+                    if timers.is_empty() {
+                        continue;
+                    }
+                    let i = pick(k, timers.len());
+                    let id = timers[i].id;
+                    want_clear = Some(id);
+                    if timers[i].want.is_none() {
+                        timers[i].cleared = true;
+                    }
+                    catch(|| core.process_event(Event::Clear(id))).map_err(|p| format!("clearing a legacy timer panicked: {p}"))?
+                }
+                LAct::Fire(k) => {
+                    if timers.is_empty() {
+                        continue;
+                    }
+                    let i = pick(k, timers.len());
+                    let Some(mut req) = timers[i].req.take() else { continue };
+                    let id = timers[i].id;
+                    let resp = match req.operation {
+                        TimeRequest::NotifyAfter { .. } => TimeResponse::DurationElapsed { id },
+                        _ => TimeResponse::InstantArrived { id },
+                    };
+                    let r = catch(|| core.resolve(&mut req, resp)).map_err(|p| format!("answering a legacy timer panicked: {p}"))?;
+                    let effects = r.map_err(|e| format!("the first answer to a legacy timer request was rejected: {e}"))?;
+                    // the timer ran: cleared only if the app cleared it, completed only because the shell answered
+                    if timers[i].cleared {
+                        both = true;
+                    }
+                    timers[i].want = Some(if timers[i].cleared { "Cleared" } else { "Completed" });
+                    timers[i].spent = Some(req);
+                    effects
+                }
+                LAct::LateFire(k) => {
+                    if timers.is_empty() {
+                        continue;
+                    }
+                    let i = pick(k, timers.len());
+                    let id = timers[i].id;
+                    let Some(req) = timers[i].spent.as_mut() else { continue };
+                    let resp = match req.operation {
+                        TimeRequest::NotifyAfter { .. } => TimeResponse::DurationElapsed { id },
+                        _ => TimeResponse::InstantArrived { id },
+                    };
+                    match catch(|| core.resolve(req, resp)).map_err(|p| format!("a duplicate answer to a legacy timer panicked: {p}"))? {
+                        Ok(_) => return Err("a second answer to a legacy timer request was accepted".into()),
+                        Err(_) => vec![],
+                    }
+                }
+                LAct::DropRequest(k) => {
+                    if timers.is_empty() {
+                        continue;
+                    }
+                    let i = pick(k, timers.len());
+                    timers[i].req = None;
+                    vec![]
+                }
+            };
+            // ---- the requests of this call
+            let view = core.view();
+            let mut seen_clear: Vec<TimerId> = vec![];
+            let mut seen_notify: Vec<(TimerId, Request<TimeRequest>)> = vec![];
+            for e in effects {
+                if let Effect::Time(req) = e {
+                    match &req.operation {
+                        TimeRequest::NotifyAfter { id, .. } | TimeRequest::NotifyAt { id, .. } => seen_notify.push((*id, req)),
+                        TimeRequest::Clear { id } => seen_clear.push(*id),
+                        TimeRequest::Now => return Err("an unexpected Now request".into()),
+                    }
+                }
+            }
+            if let Some(expects_request) = new_timer {
+                let Some(id) = view.ids.last().copied().filter(|_| view.ids.len() == timers.len() + 1) else { return Err("the app did not record the id of the timer it started".into()) };
+                if !ALL_IDS.lock().unwrap().get_or_insert_with(HashSet::new).insert(id.0) {
+                    return Err(format!("timer id {} was handed out twice in this process", id.0));
+                }
+                let mut t = T { id, req: None, spent: None, cleared: !expects_request, want: None };
+                if expects_request {
+                    match seen_notify.pop() {
+                        Some((rid, req)) if rid == id && seen_notify.is_empty() => t.req = Some(req),
+                        _ => return Err(format!("starting legacy timer {} did not send exactly one notify request carrying its id", id.0)),
+                    }
+                } else {
+                    // cleared before it was ever requested: it never asks the shell to notify it, and reports cleared
+                    if !seen_notify.is_empty() {
+                        return Err(format!("legacy timer {} was cleared before it was ever requested, yet a notify request was sent", id.0));
+                    }
+                    t.want = Some("Cleared");
+                    want_clear = Some(id);
+                }
+                timers.push(t);
+            } else if !seen_notify.is_empty() {
+                return Err("a notify request appeared although no timer was started".into());
+            }
+            match want_clear {
+                Some(id) if seen_clear != vec![id] => return Err(format!("clearing legacy timer {} sent clear requests for {:?} (expected exactly one, for its id)", id.0, seen_clear.iter().map(|i| i.0).collect::<Vec<_>>())),
+                None if !seen_clear.is_empty() => return Err(format!("a clear request for {:?} appeared although the app cleared nothing", seen_clear.iter().map(|i| i.0).collect::<Vec<_>>())),
+                _ => {}
+            }
+            // ---- outcomes: at most one per timer, and exactly the expected one
+            for t in &timers {
+                let got: Vec<&'static str> = view.outcomes.iter().filter(|(id, _)| *id == t.id).map(|(_, o)| *o).collect();
+                let want: Vec<&'static str> = t.want.into_iter().collect();
+                if got != want {
+                    return Err(format!("legacy timer {} reported {got:?}, expected {want:?} (answered: {}, cleared by the app: {})", t.id.0, t.spent.is_some(), t.cleared));
+                }
+            }
+            if view.outcomes.iter().any(|(id, _)| !timers.iter().any(|t| t.id == *id)) {
+                return Err("an outcome for a timer that was never started".into());
+            }
+        }
+        Ok((timers.len(), both))
+    }
 }
 
 #[derive(Debug, Clone, Copy, PartialEq)]
@@ -79,6 +307,8 @@ static ALL_IDS: Mutex<Option<HashSet<usize>>> = Mutex::new(None);
 pub struct Info {
     pub both_clear_and_fire: bool,
     pub timers: usize,
+    pub legacy_timers: usize,
+    pub legacy_both: bool,
 }
 
 type Builder = Box<dyn FnOnce(usize) -> Command<Effect, Event>>;
@@ -295,7 +525,8 @@ pub fn run(case: &Case) -> Result<Info, String> {
             }
         }
     }
-    Ok(Info { both_clear_and_fire: (0..nt).any(|i| fired[i] && cleared[i]), timers: nt })
+    let (legacy_timers, legacy_both) = legacy::run(&case.legacy)?;
+    Ok(Info { both_clear_and_fire: (0..nt).any(|i| fired[i] && cleared[i]), timers: nt, legacy_timers, legacy_both })
 }
 
 pub fn strategy() -> BoxedStrategy<Case> {
@@ -309,7 +540,15 @@ pub fn strategy() -> BoxedStrategy<Case> {
         1 => (0u8..3).prop_map(Act::DropClearRequest),
         1 => (0u8..3).prop_map(Act::LateFire),
     ];
-    (prop::collection::vec(any::<bool>(), 1..4), prop::collection::vec(act, 0..20)).prop_map(|(timers, acts)| Case { timers, acts }).boxed()
+    let lact = prop_oneof![
+        3 => any::<bool>().prop_map(LAct::Start),
+        1 => any::<bool>().prop_map(LAct::StartAndClear),
+        3 => any::<u8>().prop_map(LAct::Fire),
+        3 => any::<u8>().prop_map(LAct::Clear),
+        1 => any::<u8>().prop_map(LAct::DropRequest),
+        1 => any::<u8>().prop_map(LAct::LateFire),
+    ];
+    (prop::collection::vec(any::<bool>(), 1..4), prop::collection::vec(act, 0..20), prop::collection::vec(lact, 0..10)).prop_map(|(timers, acts, legacy)| Case { timers, acts, legacy }).boxed()
 }
 
 pub fn main(mode: Mode) {
@@ -318,7 +557,7 @@ pub fn main(mode: Mode) {
     let check = |c: &Case| -> Result<(), String> {
         let info = run(c)?;
         let nt = info.both_clear_and_fire || (info.timers >= 2 && c.acts.len() >= 6);
-        stats.case(c, nt, &[if info.both_clear_and_fire { "clear+fire" } else { "other" }, match info.timers { 1 => "timers:1", 2 => "timers:2", _ => "timers:3" }]);
+        stats.case(c, nt, &[if info.both_clear_and_fire { "clear+fire" } else { "other" }, match info.timers { 1 => "timers:1", 2 => "timers:2", _ => "timers:3" }, if info.legacy_both { "legacy:clear+fire" } else if info.legacy_timers > 0 { "legacy:timers" } else { "legacy:none" }]);
         if info.both_clear_and_fire && stats.wants_sample() {
             stats.sample(|| serde_json::to_value(c).unwrap());
         }
@@ -349,8 +588,8 @@ pub fn main(mode: Mode) {
                 Report {
                     prop,
                     tier,
-                    rule: "1-3 command-API timers (notify_after / notify_at) under Command::all and up to 20 actions drawn from {poll, fire, clear, drop handle, drop request, answer clear, drop clear request, duplicate fire}; the observed TimeRequest effects and TimerOutcome events must be a run of the per-timer automaton written from the property statement, and ids must be unique across all timers created in the process; non-trivial = some timer saw both a clear and a fire, or >= 2 timers with >= 6 actions; distinct = distinct (timer kinds, action list)",
-                    assumptions: vec!["responses have the kind matching the request (a mismatching kind is a documented developer error that panics)".into(), "command API on the direct host; the legacy Time capability is covered separately".into()],
+                    rule: "(a) 1-3 command-API timers (notify_after / notify_at) under Command::all and up to 20 actions drawn from {poll, fire, clear, drop handle, drop request, answer clear, drop clear request, duplicate fire}; the observed TimeRequest effects and TimerOutcome events must be a run of the per-timer automaton written from the property statement, and ids must be unique across all timers created in the process through either API; (b) in the same process a history of up to 10 calls on a Core whose app uses the legacy Time capability (start, start-and-clear in one update, fire, clear by id, drop request, duplicate fire): every started timer sends one notify request with a fresh id unless it was cleared in the same update, every clear sends exactly one Clear for that id, and each timer reports at most one outcome - completed only if the shell answered, cleared only if the app had cleared it - unchanged by later clears and answers; non-trivial = some timer saw both a clear and a fire, or >= 2 timers with >= 6 actions; distinct = distinct (timer kinds, action list)",
+                    assumptions: vec!["responses have the kind matching the request (a mismatching kind is a documented developer error that panics)".into(), "the legacy capability is checked on the clauses that do not depend on the handle-based API (unique ids, one outcome with the right cause, one Clear per clear, nothing after the outcome); whether its clear may notify the shell about a timer the shell never saw is left open".into()],
                     started,
                     replayed,
                 },
